@@ -203,7 +203,7 @@ fn shard(len: usize, seed: u64) -> Vec<u8> {
     v
 }
 
-fn check_obj(c: &ObjCase, st: &mut Stats) -> CheckResult {
+pub fn check_obj(c: &ObjCase, st: &mut Stats) -> CheckResult {
     let hseed = crate::runner::hash_of(c);
     let truth = truth_config(c.kind, c.k, c.r, c.b);
     let made = no_panic(|| {
